@@ -2,13 +2,17 @@
 (* Builder for C09: a target type (kind x carries serde(rename)?) referenced from every position   *)
 (* of fixed host items, under a prefix setting; prints the definition name P requires.               *)
 EXTENDS Names, TLC, Json
-CONSTANTS Kinds, Prefixes, Modes, Elsewheres
+CONSTANTS Kinds, Prefixes, Modes, Elsewheres, SvNames
 VARIABLE c
 \* mode: single-file or folder output. elsewhere: in folder mode, ANOTHER crate defines a type with the same Rust identifier
 \* as the target (plain, or carrying its own serde(rename)); the references under test are to the crate's own type, so the
 \* required name does not change.
-Init == c \in { r \in [kind : Kinds, renamed : BOOLEAN, prefix : Prefixes, second_renamed : BOOLEAN, mode : Modes, elsewhere : Elsewheres] :
-                  r.elsewhere # "none" => r.mode = "folder" }
+\* svname: the identifier of the host's struct variant, whose derived helper struct is named after it: plain (Sv), all capitals
+\* (OK), with an underscore (Rate_Limited), starting in lower case (lowerCase) - spellings a case conversion would change
+Init == c \in { r \in [kind : Kinds, renamed : BOOLEAN, prefix : Prefixes, second_renamed : BOOLEAN, mode : Modes, elsewhere : Elsewheres,
+                        svname : SvNames] :
+                  /\ r.elsewhere # "none" => r.mode = "folder"
+                  /\ r.svname # "Sv" => (r.kind = "struct" /\ r.elsewhere = "none" /\ ~r.second_renamed) }
 Next == UNCHANGED c
 Target == [ident |-> "Target", rename |-> IF c.renamed THEN "TargetRenamed" ELSE ""]
 Second == [ident |-> "Second", rename |-> IF c.second_renamed THEN "SecondRenamed" ELSE ""]
